@@ -262,7 +262,7 @@ impl<T, N: ArrayLength> IntrusiveArrayBuilder<T, N> {
             let ghost r1 = iter.returned();
             let ghost b1 = builder.built();
             let ghost p1 = builder.position;
-            if !builder.is_full() {
+            if !builder.is_full() || ({ proof { assert(builder.wf()) /*OB:try_from_iter.unwind@iter.next:C04*/; } iter.next() }).is_some() {
                 {
                     proof {
                         if p1 < N::n() {
@@ -281,14 +281,7 @@ impl<T, N: ArrayLength> IntrusiveArrayBuilder<T, N> {
                     }
                 };
             }
-            let array = builder.finish();
-            if ({ proof { assert(array.all_dead()) /*OB:try_from_iter.unwind@iter.next:C04*/; } iter.next() }).is_some() {
-                {
-                    array.scope_exit_unowned() /*OB:try_from_iter.nothing-live-leaves-scope-unowned:C03,C04,C07*/;
-                    return Err(LengthError)
-                };
-            }
-            Ok(({ proof { assert(array.all_live()); assert forall|k: int| 0 <= k < N::n() implies (#[trigger] iter.returned()[k]) == Some(array.view()[k].unwrap()) by { assert(iter.returned()[k] == r1[k]); assert(r1[0 + k] == Some(b1[k])); } } array_assume_init(array) }))
+            Ok({ let array = builder.finish(); ({ proof { assert(array.all_live()); assert forall|k: int| 0 <= k < N::n() implies (#[trigger] iter.returned()[k]) == Some(array.view()[k].unwrap()) by { assert(iter.returned()[k] == r1[k]); assert(r1[0 + k] == Some(b1[k])); } } array_assume_init(array) }) })
         }
     }
 
